@@ -190,6 +190,8 @@ struct Shared {
     /// the writer busy while the first request is already being read
     extra_hellos: usize,
     hello_pad: usize,
+    /// builder order: the handshake-aware (aliasing) hook is registered before the registry
+    alias_hook_first: bool,
 }
 
 impl Shared {
@@ -219,10 +221,48 @@ impl Shared {
     }
 }
 
+fn make_handshake_hook(h: Arc<Shared>) -> impl Fn(&PeerHandle, &HandshakeContext) + Send + Sync + 'static {
+    move |peer: &PeerHandle, hs: &HandshakeContext| {
+            let id = peer.peer_id().0;
+            h.log.push("handshake-H", id);
+            let conn: u64 = hs.header("x-conn").and_then(|s| s.parse().ok()).unwrap_or(u64::MAX);
+            h.peer_conn.lock().unwrap().insert(id, conn);
+            if !h.reg.alias(PeerId(id), format!("k{id}")) || !h.reg.alias(PeerId(id), format!("s{id}")) {
+                h.hook_faults.lock().unwrap().push(format!("alias for peer {id} refused although its insert hook has run"));
+            }
+            // a key that moves: every new connection takes "shared" over from whoever holds it
+            h.reg.alias(PeerId(id), "shared");
+            h.log.push("aliased", id);
+            let act = h.connect_action(conn);
+            h.act(conn, act);
+            }
+}
+
 fn build_server(sh: &Arc<Shared>, limits: WebSocketLimits) -> WebSocketServer {
     let gate = sh.gate.clone();
     let (s1, s2, s3) = (sh.clone(), sh.clone(), sh.clone());
+    // the same "act" reachable as a callable of a registry mounted on the router: its context
+    // carries the connection's cancellation signal like any other handler's
+    let tree = Arc::new(repe::registry::Registry::new());
+    let s4 = sh.clone();
+    tree.register_function(
+        "/act",
+        repe::registry::WithContext(move |ctx: &repe::peer::CallContext, params: Option<Value>| {
+            let v = params.unwrap_or(Value::Null);
+            let act = v["act"].as_str().unwrap_or("").to_string();
+            s4.act(v["conn"].as_u64().unwrap_or(0), &act);
+            if act == "cancel" && s4.mode == Mode::Embedder {
+                simkernel::count("probe.cancel_from_inside_registry_callable");
+                if !ctx.is_cancelled() {
+                    s4.hook_faults.lock().unwrap().push("a registry callable still running after the embedder's ShutdownToken was cancelled saw is_cancelled() == false".to_string());
+                }
+            }
+            Ok(json!({"acted": true}))
+        }),
+    )
+    .expect("register /act");
     let router = Router::new()
+        .with_registry("/tree", tree)
         .with_json("/echo", |v: Value| Ok(json!({"echo": v})))
         .with_json_ctx("/act", move |ctx, v: Value| {
             let act = v["act"].as_str().unwrap_or("");
@@ -255,10 +295,12 @@ fn build_server(sh: &Arc<Shared>, limits: WebSocketLimits) -> WebSocketServer {
             }
         });
     let _ = s3;
-    let (a, b, h, x, y, e) = (sh.clone(), sh.clone(), sh.clone(), sh.clone(), sh.clone(), sh.clone());
-    WebSocketServer::new(router)
-        .with_limits(limits)
-        .with_outbound_capacity(8)
+    let (a, b, x, y, e) = (sh.clone(), sh.clone(), sh.clone(), sh.clone(), sh.clone());
+    // The handshake-aware hook (it assigns the aliases) may be registered before or after the
+    // registry: either way it runs after every plain connect hook, i.e. after the insert.
+    let srv = WebSocketServer::new(router).with_limits(limits).with_outbound_capacity(8);
+    let srv = if sh.alias_hook_first { srv.on_peer_connect_with_handshake(make_handshake_hook(sh.clone())) } else { srv };
+    let srv = srv
         .on_peer_connect(move |peer: PeerHandle| {
             let id = peer.peer_id().0;
             a.log.push("connect-A", id);
@@ -307,20 +349,9 @@ fn build_server(sh: &Arc<Shared>, limits: WebSocketLimits) -> WebSocketServer {
                 }
             }
         })
-        .on_peer_connect_with_handshake(move |peer: &PeerHandle, hs: &HandshakeContext| {
-            let id = peer.peer_id().0;
-            h.log.push("handshake-H", id);
-            let conn: u64 = hs.header("x-conn").and_then(|s| s.parse().ok()).unwrap_or(u64::MAX);
-            h.peer_conn.lock().unwrap().insert(id, conn);
-            if !h.reg.alias(PeerId(id), format!("k{id}")) || !h.reg.alias(PeerId(id), format!("s{id}")) {
-                h.hook_faults.lock().unwrap().push(format!("alias for peer {id} refused although its insert hook has run"));
-            }
-            // a key that moves: every new connection takes "shared" over from whoever holds it
-            h.reg.alias(PeerId(id), "shared");
-            h.log.push("aliased", id);
-            let act = h.connect_action(conn);
-            h.act(conn, act);
-        })
+        ;
+    let srv = if !sh.alias_hook_first { srv.on_peer_connect_with_handshake(make_handshake_hook(sh.clone())) } else { srv };
+    srv
         .on_peer_disconnect(move |id: PeerId| {
             y.log.push("disconnect-Y", id.0);
             // registered after the registry's remove hook: peer and aliases are gone
@@ -429,7 +460,8 @@ async fn client(case: Case, sh: Arc<Shared>, conn: u64, ws: crate::families::ws_
                 _ => "panic",
             };
             let body = serde_json::to_vec(&json!({"conn": conn, "act": act})).unwrap();
-            let _ = send_frame(&mut sink, &Frame::new(next_id, b"/act", &body).with_formats(1, 2)).await;
+            let route: &[u8] = if simkernel::choose(3) == 0 { b"/tree/act" } else { b"/act" };
+            let _ = send_frame(&mut sink, &Frame::new(next_id, route, &body).with_formats(1, 2)).await;
             case.probe("exit_from_inside_inline_handler");
         }
         Phase::OutboundBusy => {
@@ -570,6 +602,7 @@ fn c15_ws_lifecycle(case: &Case) {
     // co-hosting modes: at the run-level event the embedder sometimes aborts its per-connection
     // tasks (drops the serve_connection futures) instead of cancelling / waiting
     let abort_tasks = matches!(mode, Mode::Embedder | Mode::Adopted) && simkernel::choose(3) == 0;
+    let alias_hook_first = simkernel::choose(2) == 0;
     let extra_hellos = pick(&[0usize, 0, 3, 6]);
     let hello_pad = pick(&[0usize, 1500]);
     let drain_ms = pick(&[50u64, 300, 2_000]);
@@ -594,6 +627,7 @@ fn c15_ws_lifecycle(case: &Case) {
             mode,
             extra_hellos,
             hello_pad,
+            alias_hook_first,
         });
         let limits = WebSocketLimits::default().with_max_incoming_message_size(Some(65_536)).with_max_incoming_frame_size(Some(65_536));
         let server = build_server(&sh, limits);
